@@ -15,7 +15,7 @@ RULE = ("for each generated repodata document / metadata file: one traced run nu
         "After every failed call the file must be byte-identical; the sequence of opens of the file must be [read] (failure) or [read, write] (success, the "
         "write coming after the last signature).  non-trivial = a fault point inside the signing loop; distinct by (document, fault point)")
 
-THEOREMS = ["no_write_before_output", "failure_leaves_file", "success_writes_once", "fault_anywhere_before_output"]
+THEOREMS = ["no_write_before_output", "failure_leaves_file", "success_writes_once", "fault_anywhere_before_output", "success_writes_signed_document"]
 
 
 def run(ck: Check) -> None:
